@@ -141,6 +141,29 @@ CHECKS = {
              "min-sum scale invariance are not formalised (checked on the implementation against a float64 brute-force reference / by rescaled runs); "
              "soft Reed-Muller is checked on the implementation only. Closed under the global context.",
         technique="Coq proof (loss decomposition for Wagner; message-sign invariant by induction over iterations for BP) + exact model/implementation correspondence by vm_compute"),
+    "C05": dict(
+        text="Coq theorems: for EVERY labelled constellation whose points and labels are pairwise distinct (checker table_ok, evaluated by "
+             "the kernel on the table each modulator publishes) the modulator emits the point labelled by the bit group and the hard "
+             "demodulator returns that label, hence every sequence of bit groups of any length comes back unchanged with one symbol per "
+             "group; differential PSK on phase indices returns every index but the reference symbol's for every order and length; offset QPSK "
+             "returns in-phase bits in place and quadrature bits delayed by one symbol (first value 0). Model tied to the modulators by the "
+             "symbol chosen for every label and the hard label of every point; to DPSK/OQPSK by their decisions on seeded and exhaustive "
+             "pair sequences (after a training-mode history and a reset).",
+        design="6/C05",
+        note="Trusted: Coq kernel + vm_compute; float32 constellation values taken as exact rationals; that float32 phasor products realise index "
+             "addition is observed, not proved (A-float); pi/4-QPSK has an oracle only. Closed under the global context.",
+        technique="Coq proof (argmin and uniqueness lemmas over lists of rational points; telescoping in Z_M) + kernel-evaluated checker on published tables + model/implementation correspondence by vm_compute"),
+    "C06": dict(
+        text="Coq theorems for ANY labelled constellation and any rational received point: the hard decision's point is at minimum Euclidean "
+             "distance (first minimum); the sign of (min d^2 to a point labelled 1) - (min d^2 to a point labelled 0) agrees with the hard "
+             "decision of that bit; c*D/(a*s^2) = (c*D/s^2)/a. The model is evaluated in Coq on each published table and on grids / "
+             "near-boundary / random received points and compared with the implementation's hard labels (exactly, outside an ambiguity "
+             "band) and soft outputs (as c*core/sigma^2 with one positive constant c per scheme).",
+        design="6/C06",
+        note="Trusted: Coq kernel + vm_compute; float32 inputs taken as exact rationals, soft outputs compared with relative tolerance 2e-3, decisions "
+             "with margin below 1e-4 classed ambiguous; differential / offset / alternating schemes checked on the implementation only. Closed under "
+             "the global context.",
+        technique="Coq proof (first-argmin and class-minimum lemmas over Q) + model/implementation correspondence by vm_compute on exact rationals"),
 }
 NOT_YET = {}
 
